@@ -112,7 +112,7 @@ func ZZ_Env_ReplicaClientAction() {
 	zzPostOutcome = zzConcretize(zzChoice("post.outcome", 4))
 	zzDecodeFails = zzNondetBool("decode.fails")
 	zzMode = zzConcStr(zzPick("mode", "RW", "WO", ""))
-	all := []string{"create", "revert", "setlogging", "close", "setrebuilding", "removedisk", "replacedisk", "prepareremovedisk", "open", "reload", "updatecloneinfo"}
+	all := []string{"create", "revert", "delete", "close", "setrebuilding", "removedisk", "replacedisk", "prepareremovedisk", "open", "reload", "updatecloneinfo"}
 	zzActionLinks = map[string]string{}
 	offered := zzNondetBool("action-offered-in-this-state")
 	for _, a := range all {
@@ -151,7 +151,18 @@ func ZZ_Env_ReplicaClientAction() {
 		usesGet = false
 		_, err = c.UpdateCloneInfo("s1", "7")
 	default:
-		action = "setlogging"
+		// delete: status query, then one DELETE request; a transport failure or a refusal is
+		// an error for the caller (the controller reports it per replica), never a panic
+		err = c.Delete("/delete")
+		if zzGetOutcome == 1 && !zzDecodeFails {
+			zzReach("env.rclient.delete-sent")
+			zzAssert(len(zzDeletes) == 1 && zzDeletes[0] == zzBase+"/delete", "env.rclient.delete-not-sent")
+			if zzPostOutcome == 0 {
+				zzAssert(err != nil, "env.rclient.failed-delete-reported-as-success")
+			}
+		} else {
+			zzAssert(err != nil && len(zzDeletes) == 0, "env.rclient.delete-sent-after-failed-status-query")
+		}
 		return
 	}
 	link := zzBase + "/replicas/1?action=" + action
